@@ -1,5 +1,5 @@
 SPECIFICATION ISpec
-CONSTANT MaxN = 3
+CONSTANT MaxN = 2
 CONSTRAINT Bound
 VIEW IView
 INVARIANT ImplRefines
